@@ -266,8 +266,68 @@ def rule_R14_4(ctx):
     return r
 
 
+def rule_R14_5(ctx):
+    import anchors
+    prog = ctx.prog
+    r = RuleResult("R14.5", "storing a value keeps its `this` source: in the "
+                   "binder only operator results are re-wrapped as source-less",
+                   "dropping the source on `=` makes a method stored in a "
+                   "variable or list lose its `this`")
+    cands = ops.find_operator_fn(prog)
+    if len(cands) != 1:
+        r.anchor_missing("operator function")
+        return r
+    ofn = cands[0][0]
+    bmod = anchors.binder_module(prog)
+    smod = anchors.scope_module(prog)
+    ctors = [f for f in prog.hand_fns() if f.module.startswith(anchors.value_module(prog))
+             and any(True for _ in f.aggregates(SV))]
+    noscr = set()
+    for f in ctors:
+        for bb, i, pl, kd, aops, sp in f.aggregates(SV):
+            si = kd["fields"].index("source")
+            cp = f.canon_op(aops[si])
+            if cp[0][0] == "agg":
+                st = f.stmts(cp[0][1])[cp[0][2]]
+                if st[2][1].get("variant") == "None":
+                    vi = kd["fields"].index("v")
+                    vcp = f.canon_op(aops[vi])
+                    if vcp[0][0] == "arg":
+                        noscr.add(f.path)
+    if not r.require_floor("source-less value constructor", len(noscr), 1):
+        return r
+    n = 0
+    for f in prog.hand_fns():
+        if f.from_expansion or not (f.module.startswith(bmod) or f.module.startswith(smod)):
+            continue
+        for c in f.calls():
+            if c.is_ptr or c.res not in noscr:
+                continue
+            n += 1
+            src = ops.try_chain_source(f, c.args[0])
+            good = src is not None and src.res == ofn.path
+            r.inst("%s: re-wraps %s as source-less" % (f.path, src.res if src else f.canon_op(c.args[0])))
+            if good:
+                r.ok()
+            else:
+                # constructors of fresh containers (rest lists/objects) are fine:
+                # their argument is a value built here, not a stored value
+                cp = f.canon_op(c.args[0])
+                fresh = cp[0][0] == "agg"
+                if fresh:
+                    r.ok()
+                else:
+                    r.fail("%s | source dropped on store" % f.path,
+                           "%s re-wraps a value that is not an operator "
+                           "result as source-less before storing it: a "
+                           "function read from an object loses its `this`"
+                           % f.path, where=c.loc)
+    r.require_floor("source-less re-wraps in the binder", n, 1)
+    return r
+
+
 def run(ctx):
-    return [rule_R14_1(ctx), rule_R14_2(ctx), rule_R14_3(ctx), rule_R14_4(ctx)]
+    return [rule_R14_1(ctx), rule_R14_2(ctx), rule_R14_3(ctx), rule_R14_4(ctx), rule_R14_5(ctx)]
 
 
 META = {
